@@ -6,6 +6,7 @@
 use std::hint::black_box;
 use std::iter;
 use std::num::NonZero;
+use std::panic::{self, AssertUnwindSafe};
 use std::sync::{Arc, Barrier, Mutex};
 use std::time::{Duration, Instant};
 
@@ -117,18 +118,30 @@ where
 
                 let meta = RunMeta::new(group_index, group_count, thread_count, iterations);
 
-                let thread_state = prepare_thread_fn(args::PrepareThread::new(&meta));
-
                 let iterations_usize = usize::try_from(iterations)
                     .expect("iteration count that exceeds virtual memory size is impossible to execute as state would not fit in memory");
 
-                let iter_state = iter::repeat_with(|| {
-                    prepare_iter_fn(args::PrepareIter::new(&meta, &thread_state))
-                }).take(iterations_usize).collect::<Vec<_>>();
+                // Every thread must arrive at the start barrier, even if its preparation panics.
+                // Otherwise the remaining threads would wait at the barrier forever and the run
+                // could never be completed (or failed) by the caller.
+                let prepared = panic::catch_unwind(AssertUnwindSafe(|| {
+                    let thread_state = prepare_thread_fn(args::PrepareThread::new(&meta));
+
+                    let iter_state = iter::repeat_with(|| {
+                        prepare_iter_fn(args::PrepareIter::new(&meta, &thread_state))
+                    }).take(iterations_usize).collect::<Vec<_>>();
+
+                    (thread_state, iter_state)
+                }));
 
                 let mut cleanup_state = Vec::with_capacity(iterations_usize);
 
                 start.wait();
+
+                let (thread_state, iter_state) = match prepared {
+                    Ok(prepared) => prepared,
+                    Err(payload) => panic::resume_unwind(payload),
+                };
 
                 let measure_state = measure_wrapper_begin_fn(args::MeasureWrapperBegin::new(&meta, &thread_state));
 
